@@ -1,5 +1,6 @@
 // Scenario "uc": one producer and one consumer on a Future/Promise pair (C01, C03, C04).
-//   prod = val | err | exc | drop
+//   prod = val | err | exc | drop | thr_retry (the first Set throws while the Result is constructed, the producer then
+//          sets the exception) | thr_drop (the first Set throws, the Promise is dropped)
 //   cons = then_inline | then_exec | detach | detach_inline | detach_exec | get | get_const | wait | connect | drop
 #include "common.hpp"
 
@@ -54,6 +55,20 @@ VRT_SCENARIO(uc, "producer/consumer hand-off on one Future/Promise pair") {
       std::move(p).Set(yaclib::StopTag{});
     } else if (prod == "exc") {
       std::move(p).Set(std::make_exception_ptr(vh::TestError{"x"}));
+    } else if (prod == "thr_retry" || prod == "thr_drop") {
+      // Set is not noexcept: when constructing the Result throws, nothing was published and the Promise is still the
+      // producer's -- it can set something else, or drop it (StopError)
+      try {
+        std::move(p).Set(vh::ThrowOnConstruct{});
+      } catch (const vh::TestError&) {
+        if (!p.Valid()) {
+          vrt::Obs("promise_lost", "");
+        } else if (prod == "thr_retry") {
+          std::move(p).Set(std::make_exception_ptr(vh::TestError{"x"}));
+        } else {
+          auto dropped = std::move(p);
+        }
+      }
     } else {
       auto dropped = std::move(p);  // ~Promise
     }
